@@ -90,6 +90,8 @@ FIELD_HEADER = {
     "sticky_enabled": ("STICKY_ENABLED_HEADER", "bool"),
     "sticky_default_ttl": ("STICKY_DEFAULT_TTL_HEADER", "int"),
     "sticky_echo_headers": ("STICKY_ECHO_HEADERS_HEADER", "list"),
+    "proxy_proof_required": ("PROOF_REQUIRED_HEADER", "bool"),
+    "token_introspection": ("INTROSPECT_ENABLED_HEADER", "bool"),
 }
 
 
@@ -428,13 +430,15 @@ def _check_probe(ctx: Ctx, emitted: dict[str, str]) -> None:
 
     consts = {}
     for nm in {v[0] for v in FIELD_HEADER.values()}:
-        r = ctx.repo.resolve_name_global(fi.module, nm)
-        s = ctx.repo.const_str(fi.module, ast.Name(id=nm, ctx=ast.Load())) if r is not None else None
-        consts[nm] = s.lower() if isinstance(s, str) else None
+        # header text as the *server* emits it (constant resolved in _factory.py); the client may spell the name through its own constant
+        sv = emitted.get(nm)
+        if sv is None and ctx.repo.resolve_name_global(fi.module, nm) is not None:
+            sv = ctx.repo.const_str(fi.module, ast.Name(id=nm, ctx=ast.Load()))
+        consts[nm] = sv.lower() if isinstance(sv, str) else None
     for field, (hconst, kind) in FIELD_HEADER.items():
         want = consts.get(hconst)
         if want is None:
-            raise AnalysisError(f"anchor=constant {hconst} not importable from http/_client.py")
+            raise AnalysisError(f"anchor=header constant {hconst} resolvable neither in _factory.py nor in http/_client.py")
         if field not in kw:
             ctx.fail("RF-TABLE", f"probe-field-source:{field}", fi, ctor[0], f"HttpServerCapabilities.{field} is not populated by the probe (left at its default)")
             continue
